@@ -49,10 +49,27 @@ def rec_of(obl, fn="", shape="", mode="", unbounded=False, replay=None, with_smt
                unbounded, replay, obl.note, smt)
 
 
+UNIT_TIMEOUT_S = int(os.environ.get("PYVC_UNIT_TIMEOUT_S", "0") or 0)
+
+
+class UnitTimeout(BaseException):
+    pass
+
+
 def _run_unit(args):
     modname, fname, uargs = args
     import importlib
+    import signal
     t0 = time.time()
+    limit = UNIT_TIMEOUT_S or (600 if os.environ.get("VERIF_TIER", "quick") != "thorough" and "--tier thorough" not in " ".join(sys.argv) else 3600)
+
+    def _alarm(signum, frame):
+        raise UnitTimeout(f"work unit exceeded {limit} s (engine limit, no verdict)")
+    try:
+        signal.signal(signal.SIGALRM, _alarm)
+        signal.alarm(limit)
+    except (ValueError, AttributeError):
+        pass
     try:
         mod = importlib.import_module(modname)
         out = getattr(mod, fname)(*uargs)
@@ -60,6 +77,11 @@ def _run_unit(args):
     except BaseException as e:  # noqa: BLE001
         return {"ok": False, "error": f"{type(e).__name__}: {e}", "trace": traceback.format_exc(),
                 "unit": f"{fname}{uargs}", "wall": time.time() - t0}
+    finally:
+        try:
+            signal.alarm(0)
+        except (ValueError, AttributeError):
+            pass
 
 
 def run_units(modname, units, nproc=None):
